@@ -68,6 +68,7 @@ type vc08Op struct {
 	Put     int      `json:"put,omitempty"`  // store fault: the k-th Put (1-based) of the write transaction fails
 	Save    string   `json:"save,omitempty"` // a notifier's Save fails: "payload" (payload event) or "tx" (transaction event)
 	Ref     string   `json:"ref,omitempty"`  // phl: the hash to append
+	Mode    string   `json:"mode,omitempty"` // mget: what the stub reader answers
 	Xs      []uint32 `json:"xs"`
 	Is      []uint32 `json:"is"`
 	Ws      []uint32 `json:"ws"`
